@@ -213,8 +213,8 @@ def twin_item(it, i, d):
 @st.composite
 def error_burst(draw):
     """100..130 frames that their parser rejects, back to back."""
-    n = draw(st.integers(100, 130))
-    kind = draw(st.sampled_from(["ubx", "nmea", "mixed"]))
+    n = draw(st.one_of(st.integers(100, 130), st.integers(100, 130), st.sampled_from([1050, 1500])))
+    kind = draw(st.sampled_from(["ubx", "nmea", "mixed"])) if n < 1000 else "ubx"
     out = []
     for j in range(n):
         if kind == "ubx" or (kind == "mixed" and j % 2):
